@@ -595,12 +595,8 @@ async fn exec_async(inp: &[u128]) -> (Vec<u128>, String, String) {
         "mid"
     };
     let mode = if incremental { "incr" } else { "snap" };
-    let sig = if incremental && s.done_at && s.len_at > 0 {
-        // known class: incremental subscription after done() on a non-empty deque
-        format!("deque:known:incr_after_done:{}", if s.len_at > 1 { "many" } else { "one" })
-    } else {
-        format!("deque:{mode}:{subkind}:{mirror_outcome}:{}", pick_branch(inp, &branches))
-    };
+    let subkind = if s.done_at && s.len_at == 0 { "afterdone_empty" } else { subkind };
+    let sig = format!("deque:{mode}:{subkind}:{mirror_outcome}:{}", pick_branch(inp, &branches));
     (out, sig, if oracle.is_empty() { "ok".to_string() } else { oracle })
 }
 
@@ -615,11 +611,10 @@ pub fn exec(inp: &[u128]) -> (Vec<u128>, String, String) {
 /// Generator: simulates length and done state so that indices sit at the boundaries that matter and
 /// panicking calls stay rare.
 pub fn gen(r: &mut Rng, i: usize) -> Vec<Vec<u128>> {
-    let known = i % 40 == 39; // separate stream for the known class (incremental subscription after done)
     let n_init = r.below(7) as usize;
     let init: Vec<u128> = (0..n_init).map(|_| val(r)).collect();
     let n_ops = r.range(5, 60) as usize;
-    let with_done = known || r.chance(2, 5);
+    let with_done = r.chance(2, 5);
     let done_at = if with_done {
         if r.chance(1, 2) {
             n_ops - 1 - r.below(4.min(n_ops as u64)) as usize
@@ -631,9 +626,7 @@ pub fn gen(r: &mut Rng, i: usize) -> Vec<Vec<u128>> {
     };
     let mut len = n_init;
     let mut ops: Vec<u128> = Vec::new();
-    let mut len_before: Vec<usize> = Vec::new(); // length before op j
     for j in 0..n_ops {
-        len_before.push(len);
         if j == done_at {
             ops.push(16);
             continue;
@@ -770,30 +763,16 @@ pub fn gen(r: &mut Rng, i: usize) -> Vec<Vec<u128>> {
             }
         }
     }
-    len_before.push(len);
     // subscription point and mode
-    let mut k = match r.below(6) {
+    // subscription point and mode; subscribing after done() (both modes, empty and non-empty) is a
+    // regression case (former finding F11) and is drawn often
+    let k = match r.below(7) {
         0 => 0,
         1 => n_ops,
-        2 if with_done && done_at < n_ops => (done_at + 1 + r.below((n_ops - done_at) as u64) as usize).min(n_ops),
+        2 | 3 if with_done && done_at < n_ops => (done_at + 1 + r.below((n_ops - done_at) as u64) as usize).min(n_ops),
         _ => r.below(n_ops as u64 + 1) as usize,
     };
-    let mut mode = r.below(2) as u128;
-    let after_done = |k: usize| with_done && k > done_at;
-    if known {
-        mode = 1;
-        k = (done_at + 1 + r.below((n_ops - done_at) as u64) as usize).min(n_ops);
-        if len_before[k] == 0 {
-            mode = 0;
-        }
-    } else if mode == 1 && after_done(k) && len_before[k] > 0 {
-        // keep the known class out of the general stream
-        if r.chance(1, 2) {
-            mode = 0;
-        } else {
-            k = r.below(done_at as u64 + 1) as usize;
-        }
-    }
+    let mode = r.below(2) as u128;
     let mx: u128 = if r.chance(1, 12) { r.below(9) as u128 } else { 1000 };
     let _ = i;
     let mut inp = vec![mx, mode, k as u128, n_init as u128];
